@@ -336,6 +336,7 @@ def rule_m6(F):
             return {"arg%d" % l}
         return {x.split(".")[0] for x in deps(b, defs, l)}
     gates = []
+    stale = []
     for bi, blk in enumerate(b.blocks):
         t = blk["term"]
         if t["k"] != "switch" or not mir.is_place_op(t["o"]):
@@ -344,7 +345,22 @@ def rule_m6(F):
             if d[2] == "assign" and d[3]["rv"]["k"] == "bin" and d[3]["rv"]["op"] in ("Eq", "Ne", "Lt", "Le", "Gt", "Ge"):
                 da, db = D(d[3]["rv"]["a"]), D(d[3]["rv"]["b"])
                 if (da == {"arg1"} and db == {"arg2"}) or (da == {"arg2"} and db == {"arg1"}):
-                    gates.append(bi)
+                    # both lengths must be read through the guards this function holds (not through a call that locks and
+                    # unlocks on its own: the lists can change before the element loop takes its locks)
+                    under = []
+                    for o in (d[3]["rv"]["a"], d[3]["rv"]["b"]):
+                        chain = mir.value_chain(b, defs, o[1][0]) if mir.is_place_op(o) else []
+                        through_guard = False
+                        for c in chain:
+                            tc = b.blocks[c[0]]["term"]
+                            if c[2].endswith("Deref::deref") and tc["args"] and mir.is_place_op(tc["args"][0]) \
+                                    and "MutexGuard" in b.mir["locals"][tc["args"][0][1][0]]["ty"]:
+                                through_guard = True
+                        under.append(through_guard and not any(c[2].startswith("value::list::") for c in chain))
+                    if all(under):
+                        gates.append(bi)
+                    else:
+                        stale.append(bi)
     loops = mir.natural_loops(b)
     n = 0
     for h, nodes in loops:
@@ -356,9 +372,65 @@ def rule_m6(F):
         r.inst("element loop #%d" % n, {"loop_header_bb": h, "length_gates": gates, "gated": ok})
         if not ok:
             r.bad(fn, "element loop not behind a length comparison", relfile(b.file), b.blocks[h]["term"].get("line", b.line),
-                  "the elements are compared without a preceding comparison of the two lengths: a list that is a proper prefix of the other compares equal (and `==` is no longer symmetric)")
+                  "the elements are compared without a preceding comparison of the two lengths %s: a list that is a proper prefix of the other compares equal (and `==` is no longer symmetric)"
+                  % ("read under the locks that the loop holds (the comparison found uses lengths obtained before the locks were taken: a concurrent push makes them stale and the loop indexes past the shorter list)" if stale else ""))
     if n == 0:
         r.missing("element comparison loop in " + fn)
+    return r
+
+
+def rule_m8(F):
+    """Clone/drop balance of the by-value list operations: a function that is handed an element by pointer AND runs the element
+    type's drop function on it (it owns the element: contains_owned, index_owned, ...) does so on every path to its return - the
+    only way around the call is the `None` side of `if let Some(drop_fn)` (element types without drop glue)."""
+    from ..report import RuleResult as RR
+    r = RR("C15.M8", "functions that own an element they are given drop it on every return path", floor=2)
+    for b in F.bodies_in(["src/value/list.rs"]):
+        if not b.mir or "::tests::" in b.path:
+            continue
+        defs = None
+        sites = []
+        for bi, t in mir.calls(b):
+            if "ind" not in t["f"] or not t["args"]:
+                continue
+            defs = defs or mir.Defs(b)
+            fk = mir.origin_key(b, defs, t["f"]["ind"][1]) if mir.is_place_op(t["f"]["ind"]) else ""
+            if "drop_fn" not in fk:
+                continue
+            ak = [mir.origin_key(b, defs, a[1]) for a in t["args"] if mir.is_place_op(a)]
+            ak += [c[2] for a in t["args"] if mir.is_place_op(a) for c in mir.value_chain(b, defs, a[1][0])]
+            pa = [k for k in ak if isinstance(k, str) and k.startswith("arg") and k[3:].split(".")[0].isdigit() and int(k[3:].split(".")[0]) >= 2]
+            roots_ = set()
+            for a in t["args"]:
+                if mir.is_place_op(a):
+                    from .c08 import deps
+                    roots_ |= {x.split(".")[0] for x in deps(b, defs, a[1][0])}
+            owned = sorted(x for x in roots_ if x.startswith("arg") and x != "arg1" and "NonNull" in b.mir["locals"][int(x[3:])]["ty"])
+            if owned:
+                sites.append((bi, owned))
+        if not sites:
+            continue
+        gates_ = [g for g in mir.gates(b, defs) if any("drop_fn" in str(x) for x in g["place"])]
+        avoid = {bi for bi, _ in sites}
+        for g in gates_:
+            avoid |= set(g["bad"])
+        rets = [i for i, blk in enumerate(b.blocks) if blk["term"]["k"] == "return"]
+        seen, work, leak = set(), [0], False
+        while work:
+            x = work.pop()
+            if x in seen or x in avoid:
+                continue
+            seen.add(x)
+            if x in rets:
+                leak = True
+                break
+            for sx in mir.succs(b.blocks[x]):
+                if not b.blocks[sx].get("cleanup"):
+                    work.append(sx)
+        r.inst(b.path, {"fn": b.path, "owned_pointer_parameters": sites[0][1], "drop_sites": len(sites), "return_reachable_without_drop": leak})
+        if leak:
+            r.bad(b.path, "return without dropping the owned element", relfile(b.file), b.line,
+                  "%s owns the element it is given (it runs the element's drop function on it) but can return without doing so: the element leaks on that path (e.g. an early return for an empty list)" % hir.last(b.path))
     return r
 
 
@@ -380,7 +452,7 @@ def rules(ctx):
                    "value::list::ErasedList::concat"):
         if not F.has(anchor):
             m1.missing(anchor)
-    return [m1, m2, rule_m4(F), rule_m5(F), rule_m6(F), m7]
+    return [m1, m2, rule_m4(F), rule_m5(F), rule_m6(F), m7, rule_m8(F)]
 
 
 def canary(C):
